@@ -38,7 +38,7 @@ class Prop(BaseProp):
         prefix_src = rng.choice(["cli", "sfile"])
         with runner.sandbox() as sb:
             pats = None
-            if special and len(c.tree.dirs) > 1:
+            if special and len(c.tree.dirs) > 1 and not c.tree.dirlinks:
                 # empty a subdirectory by patterns: all its .cmake files match
                 d = rng.choice(sorted(x for x in c.tree.dirs if x))
                 fs = [f for f in c.tree.files_of(d) if f.lower().endswith(".cmake")]
